@@ -328,9 +328,10 @@ def run(tier, seed):
         for i in range(4):
             n = tg.extend(n, txs=[], fees=0, miner=keys.pks[i])
         cs = chaingen.impl_state_from(tg.nodes)
-        for trial in range(6):
-            mine = rng.sample(keys.pks[:5], 3)
-            k_un = rng.randrange(0, 4)
+        for trial in range(10):
+            # every split of three FUNDED keys into unused / annotated (0..3 unused), plus samples with an unfunded key
+            mine = rng.sample(keys.pks[:4], 3) if trial < 8 else rng.sample(keys.pks[:5], 3)
+            k_un = trial % 4
             wl = Wl({pk: b'' for pk in mine}, mine[:k_un], {pk: 'a' for pk in mine[k_un:]})
             want = sum(v for (v, pk) in n.utxo.values() if pk in mine)
             try:
